@@ -50,7 +50,14 @@ def run(pid, spec, tier, seed):
         facts_note = None
         if spec.get("facts"):
             from . import facts
-            facts_note = facts.regenerate(spec["facts"])
+            try:
+                facts_note = facts.regenerate(spec["facts"])
+            except C.BuildError as e:
+                # the sources can no longer be read by the fact extractor / translator: the tie is broken
+                rp = C.write_replay(pid, "facts", dict(property=pid, kind="fact-extraction", detail=str(e)[-3000:]))
+                print("VIOLATION property=%s replay=%s no-failing-input-found" % (pid, rp))
+                finish(pid, spec, tier, seed, t0, None, [], 1, notes + ["fact extraction failed"], {})
+                return 1
         targets = list(spec["lean"]) + ([spec["driver"]] if spec.get("driver") else [])
         if spec.get("driver"):
             ok, out = C.lake_build([spec["driver"]])
@@ -211,7 +218,7 @@ def finish(pid, spec, tier, seed, t0, audit, runs, nviol, notes, extra):
         model_branch_histogram=branches,
         observation_lines_compared=lines,
         samples=samples or [{"theorems": (audit or {}).get("names", [])[:5]}],
-        exhaustive=False,
+        exhaustive=bool((spec.get("exhaustive") or {}).get(tier, False)),
     )
     cov.update(extra)
     ev = dict(property_id=pid, tier=tier, seed=int(seed), level=spec.get("level", "proof"), coverage=cov,
